@@ -175,6 +175,8 @@ class LaTeXRenderer(BaseRenderer):
                     '\\begin{{document}}\n'
                     '{inner}'
                     '\\end{{document}}\n')
+        # list only the packages that this document needs, not those of documents rendered earlier
+        self.packages = {}
         self.footnotes.update(token.footnotes)
         return template.format(inner=self.render_inner(token),
                                packages=self.render_packages())
